@@ -35,6 +35,12 @@ def litToks : Lit → List Tok
   | .ltrue => [.kw "TRUE"] | .lfalse => [.kw "FALSE"] | .lunknown => [.kw "UNKNOWN"]
   | .pi => [.kw "PI"] | .e => [.kw "E"] | .infinity => [.kw "?"] | .self => [.kw "SELF"]
 
+/-- a count whose own type was overwritten with `Type_Repeat` is printed with "%d" from `u.integer` -/
+def countTok : Expr → Tok
+  | .lit (.int n) => .int n
+  | .lit .infinity => .kw "?"
+  | _ => .int 0
+
 mutual
 /-- token image of `exprFrags` -/
 def toks (sh : Shared) : Expr → Bool → Option BinOp → List Tok
@@ -65,10 +71,7 @@ def itemToks (sh : Shared) : Expr → Bool → List Tok
   | .rep e c t, first =>
     (if first then [] else [if sharedRep sh e then .colon else .comma]) ++ toks sh e false none ++ [.colon]
       ++ (if ExpPrec.repeatOverwritesCountType then
-            [match c with
-             | .lit (.int n) => Tok.int n
-             | .lit .infinity => .kw "?"
-             | _ => .int 0]
+            [countTok c]
           else toks sh c false none)
       ++ itemToks sh t false
   | _, _ => []
